@@ -511,3 +511,17 @@ def get(port, url, headers=(), method="GET", body=None, version="HTTP/1.1", time
 
 def sha(b):
     return hashlib.sha256(b).hexdigest()[:16]
+
+
+def guarded(fn, squids):
+    """wraps a per-scenario function: a dead squid or a socket error becomes an `abort:` observation instead of a traceback"""
+    def run(line):
+        try:
+            return fn(line)
+        except (OSError, RuntimeError) as e:
+            dead = [s for s in squids if not s.alive()]
+            if dead:
+                probs = dead[0].problems()
+                return "abort:squid-died " + (re.sub(r"\s+", "_", probs[0])[:120] if probs else "")
+            return "abort:io-error:" + type(e).__name__
+    return run
